@@ -8,13 +8,13 @@ SEM_NOTE = ("Trusted: the network parsers and variable-role accessors of biodivi
             "Bounded: networks with n + parameter bits <= 9, formulae of bounded size / nesting <= 3; "
             "seeded random inputs (VERIF_SEED) plus fixed constrained networks.")
 CHECKS = {
- "C01": ("TLA+ reference semantics (Hctl.tla over BoolNet.tla) evaluated by TLC; API-level trace validation of recorded model_check_* calls (Trace_Sem.tla, judgement 'denote')",
+ "C01": ("TLC model checking of the evaluator model against the reference semantics (MC_Evaluator, thorough); TLA+ reference semantics (Hctl.tla over BoolNet.tla) evaluated by TLC; API-level trace validation of recorded model_check_* calls (Trace_Sem.tla, judgement 'denote')",
          "Every recorded result of the plain entry points is compared by TLC, pair by pair on every valid colour, with the denotation computed from the specification's own transition system."),
  "C02": ("TLA+ reference semantics with wild-cards/domains; trace validation of extended entry points (Trace_Sem 'denote' + README equivalences 'equal')",
          "Extended formulae with colour-dependent, empty and nested domains are judged against Hctl.Sat; both sides of the README equivalences are evaluated through the API and judged equal and correct."),
  "C03": ("trace validation of every kind of call on constrained networks (Trace_Sem 'unit'); valid colours computed by BoolNet.tla",
          "TLC decides result <= universe(valid colours) and no dependence on auxiliary variables for every recorded call."),
- "C04": ("trace validation of batches vs single vs sharing-disabled evaluation (Trace_Sem 'equal')",
+ "C04": ("TLC model checking of the evaluator state machine with cache / counters / scopes (Evaluator.tla, MC_Evaluator: BatchTransparent, CacheSound, housekeeping, liveness); step-level validation of hook traces against the model (Trace_Eval); trace validation of batches vs single vs sharing-disabled evaluation (Trace_Sem 'equal')",
          "Batches with forced overlap up to renaming, inside/outside domain scopes, permuted and repeated, with and without progress observer; TLC judges equality position by position."),
  "C08": ("trace validation of a formula and its textual rewrites (Trace_Sem 'equal')",
          "Alpha-renaming (incl. internal names permuted), blanks, redundant parentheses, long/short spellings, constant spellings; equal results required."),
@@ -22,7 +22,7 @@ CHECKS = {
          "Raw results of closed sub-formulae are fed back as wild-card context (1-3 simultaneous replacements); plain formulae through extended entry points with empty context."),
  "C11": ("law catalogue in TLA+ (Laws.tla) model-checked by TLC on all total Kripke structures up to 3 states x all argument sets (MC_Laws); both sides of every law judged against Hctl.Sat on small networks (Trace_Sem); TLC-exported catalogue replayed on the bundled benchmark models, BDD-equality facts checked by Trace_Laws; EF/AG/EU against the graph library's reachability",
          "Fixed-point characterisations, dualities, monotonicity, weak until, self-loops on steady states. On benchmark-size models the check is agreement between two computations (law replay), not comparison with the reference semantics."),
- "C12": ("trace validation of pattern formulae vs pattern-defeating rewrites vs reference semantics (Trace_Sem 'denote','equal'); Attractor/Steady defined graph-theoretically in BoolNet.tla",
+ "C12": ("MC_Evaluator with pattern-heavy pools; step-level hook traces (Trace_Eval); trace validation of pattern formulae vs pattern-defeating rewrites vs reference semantics (Trace_Sem 'denote','equal'); Attractor/Steady defined graph-theoretically in BoolNet.tla",
          "Patterns and near-misses at top level, under operators, in (domain-restricted) scopes, in batches, on constrained networks."),
  "C13": ("TLA+ weak-until semantics; trace validation of EW/AW formulae and of the defining equivalences evaluated through the tool (Trace_Sem 'denote','equal')",
          "EW/AW results judged against E[a U b] or EG a / not E[not b U (not a and not b)] computed by TLC."),
@@ -38,13 +38,13 @@ CHECKS = {
 SYN_NOTE = ("Trusted: TLC; character classes are Rust's char::is_alphanumeric / is_whitespace as recorded by the harness. "
             "The lexical conventions the README leaves open are fixed in the header of spec/Syntax.tla. Bounded enumeration plus seeded random inputs.")
 SYN = {
- "C05": ("TLA+ lexical grammar and precedence-climbing parser (Syntax.Lex / Parse) evaluated by TLC on the recorded characters; trace validation of try_tokenize_* and parse_* (Trace_Syn 'c05')",
+ "C05": ("TLC model checking ImplParse = Parse on all token sequences up to length 4 / 5 (MC_Syntax); TLA+ lexical grammar and precedence-climbing parser (Syntax.Lex / Parse) evaluated by TLC on the recorded characters; trace validation of try_tokenize_* and parse_* (Trace_Syn 'c05')",
          "All token sequences up to a length bound (rendered to text) and seeded random / mutated / unicode strings: tokens and tree must be the ones the documented grammar dictates, rejection exactly when not derivable, plain = extended on plain input."),
  "C06": ("TLA+ Render / Height evaluated by TLC node by node on trees built with the public constructors and on parser output; print-parse round trip (Trace_Syn 'c06build', 'c06parse')",
          "All trees up to a size bound, random deep trees, and trees produced by the parsers."),
- "C07": ("TLA+ WellScoped / Rename / de Bruijn normal form (Scope.tla) evaluated by TLC on recorded preprocessing results (Trace_Scope 'c07')",
+ "C07": ("TLC model checking of the specified renamer on all well-scoped trees up to 3 / 4 nodes (MC_Scope RenameOK); TLA+ WellScoped / Rename / de Bruijn normal form (Scope.tla) evaluated by TLC on recorded preprocessing results (Trace_Scope 'c07')",
          "Acceptance <=> well-scoped and known propositions; result alpha-equivalent, depth-named, minimal number of names, idempotent; also parse_and_minimize_*, collect_unique_*, check_hctl_var_support."),
- "C09": ("TLA+ alpha-equivalence of open sub-formulae by brute-force bijections and independent occurrence counting (Scope.tla) on recorded canonical forms and duplicate maps (Trace_Scope 'c09canon', 'c09dups')",
+ "C09": ("TLC model checking of the code's canonisation algorithm against alpha-equivalence on all pairs of sub-formulae up to the bound (MC_Scope CanonOK); TLA+ alpha-equivalence of open sub-formulae by brute-force bijections and independent occurrence counting (Scope.tla) on recorded canonical forms and duplicate maps (Trace_Scope 'c09canon', 'c09dups')",
          "Every pair of sub-formulae of every generated list; every reported duplicate."),
 }
 CLI_NOTE = ("Trusted: TLC; the network parsers of biodivine-lib-param-bn; BDD text serialisation and zip framing are not modelled "
@@ -54,7 +54,7 @@ CLI = {
          "Label->set maps incl. empty, full, beyond-unit and result sets, on aeon / bnet / sbml inputs, k = 0..2; reloaded sets, entry list, formula list and model judged by TLC."),
  "C19": ("input/output relation of the converter in TLA+ (Converter.Related) evaluated by TLC on recorded runs of the binary (Trace_Conv); the Shannon-expansion algorithm model-checked against completeness for arity 0..3 (MC_Converter)",
          "For each target TLC enumerates every valuation of the fresh constants and compares the set of truth tables with the set of instantiations of the input function; inputs stay inputs, no other targets, no crash."),
- "C17": ("state machine of one tool run in TLA+ (Cli.tla); path-wise trace validation by TLC of the binary's stdout lines, exit status and -o archive against it (Trace_Cli.tla), reference sets from the library API",
+ "C17": ("state machine of one tool run in TLA+ (Cli.tla), model-checked over a small input space (MC_Cli: InOrder, FailQuiet, Complete, termination); path-wise trace validation by TLC of the binary's stdout lines, exit status and -o archive against it (Trace_Cli.tla), reference sets from the library API",
          "Every recorded run is an independent behaviour: the machine runs, the recorded lines are consumed against its output; order, texts, the three counts, exhaustive state lists, archived sets, and message-not-crash for failure scenarios."),
 }
 checks = []
